@@ -2,7 +2,9 @@ package main
 
 import (
 	"fmt"
+	"go/types"
 	"sort"
+	"strconv"
 	"strings"
 
 	"golang.org/x/tools/go/ssa"
@@ -19,6 +21,7 @@ func init() {
 
 func runC16(c *Ctx, r *Report) {
 	defer c16R5(c, r, "C16.R5")
+	defer c16Store(c, r, "C16.R6")
 	r.rule("C16.R1", "permit rule per command-list scenario", 8)
 	r.rule("C16.R2", "authentication methods per credential scenario", 8)
 	r.rule("C16.R3", "NewServer receives WithRule(rule) and WithAuthMethods(methods)", 8)
@@ -289,4 +292,112 @@ func c16R5(c *Ctx, r *Report, rule string) {
 		problems = append(problems, "no account is ever stored")
 	}
 	r.check(len(problems) == 0, rule, fnName, "accounts", c.pos(fn.Pos()), fmt.Sprintf("%d paths, %d account stores, all resolved and guarded", len(paths), stores), strings.Join(dedup(problems), "\n"))
+}
+
+// c16Store: who decides whether a user name / password pair is valid. The library's StaticCredentials (exact pair
+// lookup in the map it is built from) is trusted like the rest of the library. Any other store is a part of this
+// module: its Valid method is evaluated on a table of accounts and presented pairs, and must accept exactly the
+// configured pairs.
+func c16Store(c *Ctx, r *Report, rule string) {
+	r.rule(rule, "credential store: the value put into UserPassAuthenticator.Credentials is the library's StaticCredentials over the resolved map, or a module type whose Valid method - evaluated on the accounts {alice:pw1, bob:pw2, dave:\"\"} x 12 presented pairs - accepts exactly the configured pairs", 1)
+	n := 0
+	for _, fn := range c.Funcs {
+		if !strings.HasPrefix(fname(fn), "modules/l4socks.") {
+			continue
+		}
+		for _, b := range fn.Blocks {
+			for _, in := range b.Instrs {
+				st, ok := in.(*ssa.Store)
+				if !ok {
+					continue
+				}
+				fa, ok := st.Addr.(*ssa.FieldAddr)
+				if !ok || !strings.HasSuffix(typeStr(deref(fa.X.Type())), "go-socks5.UserPassAuthenticator") || fieldName(deref(fa.X.Type()), fa.Field) != "Credentials" {
+					continue
+				}
+				n++
+				key := fmt.Sprintf("Credentials#%d", n)
+				mi, ok := st.Val.(*ssa.MakeInterface)
+				if !ok {
+					r.bad(rule, fname(fn), key, c.ipos(st), "undecided: the credential store is not a value of a known concrete type")
+					continue
+				}
+				t := mi.X.Type()
+				ts := typeStr(t)
+				if strings.HasSuffix(ts, "go-socks5.StaticCredentials") {
+					r.ok(rule, fname(fn), key, c.ipos(st), "library store (exact pair lookup)")
+					continue
+				}
+				valid := c.Prog.LookupMethod(t, nil, "Valid")
+				if valid == nil {
+					if nt, ok := t.(*types.Named); ok {
+						valid = c.Prog.LookupMethod(t, nt.Obj().Pkg(), "Valid")
+					}
+				}
+				if valid == nil || len(valid.Blocks) == 0 || valid.Pkg == nil || !strings.HasPrefix(valid.Pkg.Pkg.Path(), modPath) {
+					r.bad(rule, fname(fn), key, c.ipos(st), "undecided: the credential store "+ts+" is neither the library's StaticCredentials nor a module type whose Valid method can be evaluated")
+					continue
+				}
+				if _, isMap := t.Underlying().(*types.Map); !isMap {
+					r.bad(rule, fname(fn), key, c.ipos(st), "undecided: the credential store "+ts+" is not a map type; its contents cannot be fixed for the evaluation")
+					continue
+				}
+				accounts := map[string]string{"alice": "pw1", "bob": "pw2", "dave": ""}
+				queries := [][2]string{{"alice", "pw1"}, {"bob", "pw2"}, {"dave", ""}, {"alice", "pw2"}, {"bob", "pw1"}, {"alice", ""}, {"carol", ""}, {"carol", "pw1"}, {"", ""}, {"", "pw1"}, {"alice", "pw1x"}, {"dave", "pw1"}}
+				var problems []string
+				for _, q := range queries {
+					want := false
+					if pw, ok := accounts[q[0]]; ok && pw == q[1] {
+						want = true
+					}
+					ms := map[string]SV{}
+					for u, p := range accounts {
+						ms[u] = symStr(p)
+					}
+					ln := symInt(int64(len(accounts)))
+					sc := &Scenario{Name: "valid", MaxVisit: 8,
+						Params: map[string]SV{"recv": {K: "ref", Known: true, Desc: "store", Len: &ln}, "p0": symStr(q[0]), "p1": symStr(q[1]), "p2": symStr("10.0.0.1")},
+						Heap:   map[string]SV{"smap:store": {K: "mapval", MS: ms}},
+					}
+					sc.Call = func(callee string, args []SV, ev *symEval, st *symState) (SV, bool) {
+						if callee == "crypto/subtle.ConstantTimeCompare" && len(args) == 2 {
+							a, e1 := strconv.Unquote(args[0].Desc)
+							b, e2 := strconv.Unquote(args[1].Desc)
+							if e1 == nil && e2 == nil {
+								if a == b {
+									return symInt(1), true
+								}
+								return symInt(0), true
+							}
+						}
+						if callee == "crypto/subtle.ConstantTimeEq" && len(args) == 2 && args[0].Known && args[1].Known {
+							if args[0].N == args[1].N {
+								return symInt(1), true
+							}
+							return symInt(0), true
+						}
+						return SV{}, false
+					}
+					paths, err := evalPaths(valid, sc)
+					if err != nil || len(paths) == 0 {
+						problems = append(problems, fmt.Sprintf("undecided for (%q, %q): %v", q[0], q[1], err))
+						continue
+					}
+					for _, p := range paths {
+						if p.Outcome != "return" || len(p.Ret) != 1 || !p.Ret[0].Known {
+							problems = append(problems, fmt.Sprintf("undecided for (%q, %q): %s", q[0], q[1], fmtTrace(p)))
+							continue
+						}
+						if p.Ret[0].B != want {
+							problems = append(problems, fmt.Sprintf("user %q with password %q is answered %v, the configured accounts say %v", q[0], q[1], p.Ret[0].B, want))
+						}
+					}
+				}
+				r.check(len(problems) == 0, rule, fname(fn), key, c.ipos(st), "module store "+ts+" accepts exactly the configured pairs", "the credential store "+ts+": "+strings.Join(dedup(problems), "; "))
+			}
+		}
+	}
+	if n == 0 {
+		r.bad(rule, "modules/l4socks", "credential store installed", "-", "no store is assigned to UserPassAuthenticator.Credentials")
+	}
 }
